@@ -376,7 +376,7 @@ class ExplicitSymplecticIntegrator(TableauIntegrator):
             self.staggered_mask = D.ar_numpy.zeros(sys_dim, dtype=D.autoray.to_backend_dtype('bool', like=self.tableau_intermediate), like=self.tableau_intermediate)
             self.staggered_mask[staggered_mask] = 1
         else:
-            self.staggered_mask = D.astype(staggered_mask, D.autoray.to_backend_dtype('bool', like=self.tableau_intermediate), like=self.tableau_intermediate)
+            self.staggered_mask = D.ar_numpy.astype(D.ar_numpy.asarray(staggered_mask, like=self.tableau_intermediate), D.autoray.to_backend_dtype('bool', like=self.tableau_intermediate))
 
         self.kick_mask = D.ar_numpy.asarray(self.staggered_mask, **self.array_constructor_kwargs)
         self.drift_mask = 1.0 - self.kick_mask
